@@ -1,6 +1,7 @@
 import Lean.Data.Json
 import AnonModel.Model.Convert
 import AnonModel.Model.ProofDoc
+import AnonModel.Model.Envelope
 import AnonModel.Model.Issuance
 import AnonModel.Model.IssuanceW3C
 import AnonModel.Driver.OpsVerify
@@ -27,6 +28,15 @@ def w3cMetaOfJson (j : Json) : Option W3CMeta := do
   pure { contextOk := ← fld j "context_ok" >>= boolOfJson, hasW3CType := ← fld j "has_type" >>= boolOfJson,
          v11 := ← fld j "v11" >>= boolOfJson, hasIssuanceDate := ← fld j "has_issuance_date" >>= boolOfJson,
          signatureProofOk := ← fld j "signature_proof_ok" >>= boolOfJson }
+
+def envCtxOfJson (j : Json) : Option Envelope.Ctx :=
+  match j.getObjVal? "uri", j.getObjVal? "obj" with
+  | .ok (.str "v11"), _ => some (.uri .v11Base)
+  | .ok (.str "v20"), _ => some (.uri .v20Base)
+  | .ok (.str "di"), _ => some (.uri .dataIntegrity)
+  | .ok u, _ => (natOfJson u).map (fun k => .uri (.other k))
+  | _, .ok k => (natOfJson k).map .obj
+  | _, _ => none
 
 def pdScalarOfJson (j : Json) : Option ProofDoc.Scalar :=
   match j.getObjVal? "anon", j.getObjVal? "other" with
@@ -66,6 +76,15 @@ def stepIssue (op : String) (j : Json) : Option Json :=
       | some subj =>
         Json.mkObj [("subject", assocToJson subjValToJson subj),
                     ("back", match subjectEncode subj with | some b => valuesToJson b | none => errJ)])
+  | "w3c_envelope" => do
+    -- `@context` / `type` / `issuanceDate` of a stored W3C credential or presentation: version read and validity
+    let cs ← fld j "ctx" >>= listOfJson envCtxOfJson
+    let ts ← fld j "types" >>= listOfJson strOfJson
+    let date ← fld j "date" >>= boolOfJson
+    let kind ← fld j "kind" >>= strOfJson
+    let valid := if kind == "presentation" then Envelope.presValid cs ts else Envelope.credValid ⟨cs, ts, date⟩
+    pure (Json.mkObj [("valid", Json.bool valid),
+                      ("version", match Envelope.version cs with | some .v11 => Json.str "1.1" | some .v20 => Json.str "2.0" | none => Json.null)])
   | "proof_doc" => do
     -- the `proof` member of a stored W3C credential: which proof the getters find, and the document written back
     let d ← fld j "doc" >>= pdDocOfJson
